@@ -180,11 +180,13 @@ def run(ctx):
                 ctx.violation(key, 'text template %r rendered %r, expected %r' % (src, got, exp),
                               {'kind': 'text', 'src': src, 'expected': exp})
             if done % 8 == 0:
-                for enc in ('utf-8', 'latin-1', 'out-latin-1', 'out-cp1252'):
+                for enc in ('utf-8', 'latin-1', 'out-latin-1', 'out-cp1252', 'bom-utf-8-sig', 'bom-utf-16', 'bom-utf-32'):
                     fn = os.path.join(tmp, 't%d.txt' % (done % 5))
                     # 'out-X': the file is stored as UTF-8 but the template's (output) encoding is X
-                    file_enc = 'utf-8' if enc.startswith('out-') else enc
-                    out_enc = enc[4:] if enc.startswith('out-') else enc
+                    # 'bom-X': the file is stored in X with its byte-order mark, no option given: the text comes back in
+                    #          the template's own encoding (UTF-8 by default), whatever the file was stored in
+                    file_enc = 'utf-8' if enc.startswith('out-') else enc[4:] if enc.startswith('bom-') else enc
+                    out_enc = enc[4:] if enc.startswith('out-') else 'utf-8' if enc.startswith('bom-') else enc
                     try:
                         data = src.encode(file_enc)
                         want = exp.encode(out_enc)
@@ -192,21 +194,21 @@ def run(ctx):
                         continue
                     with open(fn, 'wb') as f:
                         f.write(data)
-                    if enc == 'utf-8':
+                    if enc == 'utf-8' or enc.startswith('bom-'):
                         cfg = {}
                     elif enc.startswith('out-'):
                         cfg = {'encoding': out_enc}
                     else:
                         cfg = {'default_encoding': enc, 'encoding': enc}
-                    enc = out_enc
+                    label, enc = enc, out_enc
                     gotb = render_real(PageTextTemplateFile, fn, env, **cfg)
                     ctx.mon('file-compared')
-                    ctx.case(key=('file', enc) + shape(parts), nontrivial=nontrivial)
+                    ctx.case(key=('file', label) + shape(parts), nontrivial=nontrivial)
                     if gotb != want:
                         if isinstance(gotb, bytes) and got != exp and gotb == got.encode(enc, 'replace'):
                             continue        # same disagreement as the string variant, already reported
                         ctx.violation('file-variant:' + classify(parts, env, src, exp, gotb if isinstance(gotb, str) else gotb.decode(enc, 'replace')),
-                                      'file text template (%s) %r returned %r, expected %r' % (enc, src, gotb, want),
+                                      'file text template (%s) %r returned %r, expected %r' % (label, src, gotb, want),
                                       {'kind': 'textfile', 'src': src, 'expected': exp, 'encoding': enc})
     finally:
         shutil.rmtree(tmp, ignore_errors=True)
